@@ -288,6 +288,9 @@ impl TopicCache {
     start_instant: Timestamp,
     end_instant: Timestamp,
   ) -> Box<dyn Iterator<Item = (Timestamp, &CacheChange)> + '_> {
+    // Both instants are readings of the wall clock, which may have been set back
+    // in between. Make sure start <= end, so that `.range()` does not panic.
+    let end_instant = max(start_instant, end_instant);
     Box::new(
       self
         .changes
